@@ -240,6 +240,85 @@ def malformed(ctx):
     ctx.sample(dict(kind="malformed", case=cfg))
 
 
+EXISTING_FAMILIES = [
+    ("decision-hash-wrong", lambda d: re.sub(rb"(initial-vocab-table-index: \d+ )([0-9a-f]{4})", lambda m: m.group(1) + b"ffff", d)),
+    ("decision-index-out-of-range", lambda d: re.sub(rb"initial-vocab-table-index: \d+", b"initial-vocab-table-index: 7", d)),
+    ("decision-index-one-field", lambda d: re.sub(rb"initial-vocab-table-index: (\d+) [0-9a-f]+", rb"initial-vocab-table-index: \1", d)),
+    ("decision-index-not-int", lambda d: re.sub(rb"initial-vocab-table-index: \d+", b"initial-vocab-table-index: x", d)),
+    ("decision-version-unknown", lambda d: re.sub(rb"banana-decision-version: \d+", b"banana-decision-version: 99", d)),
+    ("decision-version-garbage", lambda d: re.sub(rb"banana-decision-version: \d+", b"banana-decision-version: zz", d)),
+    ("decision-hash-1500", lambda d: re.sub(rb"(initial-vocab-table-index: \d+ )[0-9a-f]{4}", lambda m: m.group(1) + b"f" * 1500, d)),
+    ("decision-error-block", lambda d: b"error: go away\r\n\r\n" if b"banana-decision-version" in d else d),
+]
+
+
+def malformed_with_existing(ctx):
+    """'Malformed ... input only ever ends THAT connection attempt': the end that refuses a malformed decision already has an
+    established connection to the same peer Tub (the peer restarted or re-dialled); refusing the new attempt must leave the
+    established connection, and the connection records (slave_table / master_table), exactly as they were."""
+    r = (1, 3, 0, 1)
+
+    def snapshot(t):
+        return (sorted((ref.getTubID(), id(b), bool(b.disconnected)) for ref, b in t.brokers.items()),
+                sorted((k, tuple(v) if isinstance(v, (list, tuple)) else v) for k, v in t.slave_table.items()),
+                sorted((k, tuple(v) if isinstance(v, (list, tuple)) else v) for k, v in t.master_table.items()))
+    with quiet():
+        for name, fn in EXISTING_FAMILIES + [("control-undamaged", lambda d: d)]:
+            for first_dial in ("slave-dialled", "master-dialled"):
+                E.reset_clock()
+                net = Net()
+                (lo_id, lo_pem), (hi_id, hi_pem) = pems_sorted(2)
+                N = make_tub(net, "n", lo_pem, mkneg(r))          # lower TubID: never the decider
+                M = make_tub(net, "m", hi_pem, mkneg(r))
+                furlM, furlN = M.registerReference(T()), N.registerReference(T())
+                res = []
+                if first_dial == "slave-dialled":
+                    N.getReference(furlM).addCallback(lambda rr: rr.callRemote("hi")).addBoth(res.append)
+                else:
+                    M.getReference(furlN).addCallback(lambda rr: rr.callRemote("hi")).addBoth(res.append)
+                E.turn()
+                net.run()
+                if res != [42]:
+                    ctx.note("malformed_with_existing: the first connection did not come up (%r)" % (res,))
+                    continue
+                before = snapshot(N)
+                hit = []
+
+                def mangle(link, s_, d, fn=fn, hit=hit):
+                    if link.name == "L0":
+                        return d
+                    d2 = fn(d)
+                    if d2 != d:
+                        hit.append(1)
+                    return d2
+                net.mangle = mangle
+                # the peer Tub comes back as a new incarnation (same certificate) and dials the slave
+                M2 = make_tub(net, "m2", hi_pem, mkneg(r))
+                res2 = []
+                M2.getReference(furlN).addCallback(lambda rr: rr.callRemote("hi")).addBoth(res2.append)
+                E.turn()
+                net.run()
+                after = snapshot(N)
+                cfg = dict(family=name, first=first_dial)
+                ctx.case(["malformed-existing", name, first_dial], nontrivial=bool(hit) or name.startswith("control"))
+                ctx.hist("malformed_existing", "damaged" if hit else "undamaged")
+                if hit:
+                    if after != before:
+                        ctx.fail("oracle/malformed-attempt-disturbs-established-connection", "a refused (malformed) decision changed the state of "
+                                 "the refusing Tub beyond the attempt itself: %r: brokers/slave_table/master_table before %r, after %r"
+                                 % (cfg, before, after), replay=dict(cfg=cfg, before=repr(before), after=repr(after)))
+                    if res2 and res2[0] == 42:
+                        ctx.fail("oracle/malformed-disagree", "a damaged decision was accepted: %r" % (cfg,), replay=dict(cfg=cfg))
+                else:
+                    # control: the undamaged decision replaces the established connection by the new one
+                    if name.startswith("control") and res2 != [42]:
+                        ctx.fail("oracle/replacement-failed", "an undamaged reconnection from a restarted peer did not succeed: %r -> %r"
+                                 % (cfg, res2), replay=dict(cfg=cfg, res=repr(res2)))
+                for t in (N, M, M2):
+                    t.stopService()
+                E.turn()
+
+
 def coalesced(ctx):
     """the decision block may arrive in one packet together with the peer's first Banana traffic, however much there
     is of it: the outcome must not depend on that (regression: the 4096-byte header limit used to count it)"""
